@@ -1,5 +1,6 @@
 import CvModel.Value
 import CvModel.Abf
+import CvModel.Restraint
 /-
   The per-step machine of the module for value-injected scalar variables
   (`colvarmodule::calc`: `calc_colvars`, `calc_biases`, `update_colvar_forces`, `end_of_step`;
@@ -27,6 +28,7 @@ inductive Bias (α : Type) where
   | hist (cvs : List Nat) (g : GridDef α) (stepZero : Bool) (data : List α)
   | abf (cvs : List Nat) (p : AbfParams α) (s : AbfState α)
   | harm (cvs : List Nat) (k : α) (centers : List α)
+  | restr (cvs : List Nat) (p : RParams α) (s : RState α)
 
 structure Sys (α : Type) where
   clock : Clock := {}
@@ -78,6 +80,10 @@ def biasUpdate (m : Sys α) (c : Clock) (cvs : List (CvSt α)) : Bias α → Bia
   | .harm idx k centers =>
     let vs := getCvs cvs idx
     (.harm idx k centers, harmEnergy vs k centers, idx.zip (harmForces vs k centers))
+  | .restr idx p s =>
+    let xs := (getCvs cvs idx).map (·.x)
+    let (s', o) := restraintStep p c s xs
+    (.restr idx p s', o.energy, idx.zip o.forces)
 
 structure StepOut (α : Type) where
   energy : α
@@ -104,5 +110,38 @@ def modStep (m : Sys α) (i : StepIn α) : Sys α × StepOut α :=
   -- end of step
   let cvs := cvs.map fun v => if v.subtract then { v with fOld := v.f } else v
   ({ m with clock := c, cvs := cvs, biases := biases, lastApplied := atomF }, { energy := energy, atomF := atomF })
+
+end Cv
+
+/-! ### saving and loading (what the state file carries for each object) -/
+namespace Cv
+variable {α : Type} [Sc α]
+
+/-- state of a freshly configured bias overwritten by what a saved state of the same bias carries
+    (`get_state_params`/`write_state_data` of each bias type) -/
+def loadBias (fresh saved : Bias α) : Bias α :=
+  match fresh, saved with
+  | .hist idx g sz _, .hist _ _ _ data => .hist idx g sz data
+  | .abf idx p s0, .abf _ _ s => .abf idx p { s0 with samples := s.samples, grad := s.grad }
+  | .harm idx k c, _ => .harm idx k c
+  | .restr idx p s0, .restr _ ps s =>
+    -- firstStep is a state parameter; centres, force constant, stage and work only when they can change
+    let p' := if p.targetCenters.isSome || p.chgK then { p with firstStep := ps.firstStep } else p
+    .restr idx p' { s0 with
+      centers := if p.targetCenters.isSome then s.centers else s0.centers,
+      k := if p.chgK then s.k else s0.k,
+      stage := if (p.targetCenters.isSome || p.chgK) && p.nstages ≠ 0 then s.stage else s0.stage,
+      accWork := if p.outputWork then s.accWork else s0.accWork,
+      restraintFE := if p.chgK && p.nstages ≠ 0 then s.restraintFE else s0.restraintFE }
+  | f, _ => f
+
+/-- a fresh instance configured like `fresh` resumes from `saved`: step counter and per-bias data -/
+def sysLoad (fresh saved : Sys α) : Sys α :=
+  { fresh with
+    clock := { it := saved.clock.it, itRestart := saved.clock.it, first := true, cont := false },
+    biases := fresh.biases.map fun (nb : String × Bias α) =>
+      match saved.biases.find? (·.1 == nb.1) with
+      | some sb => (nb.1, loadBias nb.2 sb.2)
+      | none => nb }
 
 end Cv
